@@ -634,6 +634,11 @@ func (x *g) vcase(c config, force string) string {
 		}
 		return v.line()
 	case k == 5 && s.variant != "R":
+		if r.Bool() {
+			// bytes in front of a genuine prefixed signature (a prefix search that is not anchored accepts them)
+			v.sig, v.label = append(r.Bytes(1+r.Intn(6)), sig...), "bad:junk-before-prefix"
+			return v.line()
+		}
 		v.sig, v.label = body, "bad:pfx-drop"
 		return v.line()
 	case k == 6 && s.variant != "R":
